@@ -116,4 +116,16 @@ var props = map[string]Prop{
 			har("strings", "./harness/c05", "TestC05Strings", true, 20000, 800000, 4, 8),
 		},
 	},
+	"C06": {
+		ID: "C06", Level: "exploration",
+		Rule: "programs/mapops (14 key/value type pairs: int64, uint8, string, float64 with +-0 and NaN, complex128, bool, [2]int32, structs with padding / blank field / float, interface keys of mixed dynamic type, 160-byte indirect keys and values) compiled by the llgo under test at O0, O2, Oz, O2+nogc. (1) point histories: rapid sequences of 1-60 operations (set, get in both forms, delete, len, clear, make(hint), nil map, full dump, bulk insert/delete of up to 20000 keys with strides, unhashable interface keys) compared after every step with gc's own map executing the same interpreter natively (dumps as multisets); non-trivial = history crossing a growth or doing bulk churn or using +-0/NaN/special tokens. (2) range loops with interleaved mutation: maps of 0-2500 keys, optionally after churn (insert, delete 90 percent), a script of up to 8 mutations keyed by iteration step (overwrite, delete, insert, bulk insert forcing growth, clear) and optional early break; the transcript must satisfy Go's guarantees (only present keys, current values, no key twice, every key present throughout yielded once on natural termination) and the final map must equal the model; the predicate is run on gc's transcript too. Distinct by hash of the history.",
+		Assumptions: []string{
+			"gc's map (go1.24) executing the same interpreter in-process is the reference for point operations",
+			"the range predicate encodes exactly the spec's guarantees for iteration under mutation; it is validated against gc on every case",
+		},
+		Jobs: []Job{
+			har("point", "./harness/c06", "TestC06Point", true, 600, 30000, 8, 16),
+			har("rangemut", "./harness/c06", "TestC06RangeMutation", true, 300, 15000, 8, 16),
+		},
+	},
 }
